@@ -155,7 +155,18 @@ pub fn run(sink: &mut Sink, rng: &mut Rng, thorough: bool) {
     } else if choice < 63 {
       // read-only queries on one or two indices (same index twice, dead indices included)
       let i = pick_idx(rng, &known);
-      if rng.chance(1, 2) {
+      if rng.chance(1, 3) {
+        let which = rng.below(4);
+        let name = ["min", "max", "nranges", "sum"][which as usize];
+        let opt = |r: Result<Option<u64>, String>| match r { Ok(Some(v)) => v.to_string(), Ok(None) => "none".to_string(), Err(e) => err_class(&e).to_string() };
+        let r = guarded(AssertUnwindSafe(|| match which {
+          0 => opt(store.get_1st_axis_min(i)),
+          1 => opt(store.get_1st_axis_max(i)),
+          2 => match store.get_n_ranges(i) { Ok(v) => v.to_string(), Err(e) => err_class(&e).to_string() },
+          _ => match store.get_ranges_sum(i) { Ok(v) => v.to_string(), Err(e) => err_class(&e).to_string() },
+        }));
+        (format!("store q1 {} {}", name, i), r)
+      } else if rng.chance(1, 2) {
         let j = if rng.chance(1, 2) { i } else { pick_idx(rng, &known) };
         let r = guarded(AssertUnwindSafe(|| match store.eq(i, j) { Ok(b) => b.to_string(), Err(e) => err_class(&e).to_string() }));
         (format!("store eq {} {}", i, j), r)
